@@ -1,3 +1,3 @@
 SPECIFICATION Spec
-CONSTANT Pep709 = FALSE
+CONSTANT Pep709 = TRUE
 CHECK_DEADLOCK FALSE
